@@ -106,9 +106,9 @@ class Corpus:
         self.meta = {}
         self.msgs = {}
 
-    def add(self, payload, labelmsm=1, keep_msg=False, lbl=True, **meta):
+    def add(self, payload, labelmsm=1, keep_msg=False, lbl=True, via="ctor", frame=None, validate=1, **meta):
         rid = len(self.recs) + 1
-        r, msg = decode_rec.record_decode(rid, payload, labelmsm)
+        r, msg = decode_rec.record_decode(rid, payload, labelmsm, via=via, frame=frame, validate=validate)
         r["lbl"] = bool(lbl)
         self.recs.append(r)
         meta["labelmsm"] = labelmsm
@@ -128,6 +128,9 @@ class Corpus:
 def replay_of(rec, meta, verdict):
     return {
         "engine": "decode",
+        "via": rec.get("via", "ctor"),
+        "frame_hex": bytes(rec.get("frame") or []).hex(),
+        "validate": rec.get("validate", 1),
         "payload_hex": bytes(rec["p"]).hex(),
         "labelmsm": meta.get("labelmsm", 1),
         "observed": {"out": rec["out"], "cls": rec["cls"], "ident": rec["ident"], "nattrs": len(rec["attrs"])},
